@@ -182,6 +182,17 @@ Section Prims.
       rewrite (firstn_app_exact iv enc _ Hiv), (skipn_app_exact iv enc _ Hiv). reflexivity.
   Qed.
 
+  (* the reader (String2Key.parse, then decrypt_keyblob) recovers what the writer was given, for every form the writer knows *)
+  Lemma reader_recovers_written u a sp h salt c iv pass ms :
+    wf_form u a sp h salt c iv -> wf_mpis ms ->
+    exists b, s2k_parse (write_secret cfb_enc sha1 s2k (WStd u a sp h salt c iv pass) ms) = Some (inr (BStd b), []) /\
+              unprotect cfb_dec sha1 s2k (length ms) b pass = Some ms.
+  Proof.
+    intros Hf Hm. exists (mk_sblob cfb_enc sha1 s2k u a sp h salt c iv pass ms). split.
+    - unfold write_secret. apply s2k_parse_emit. exact Hf.
+    - apply unprotect_protect; [exact Hm | destruct Hf as [Hu _]; exact Hu].
+  Qed.
+
   (* ---------- the gate is the only way to acceptance ---------- *)
   Lemma unprotect_accept_iff n b pass ms r :
     unprotect_std cfb_dec sha1 s2k n b pass = UOk ms r <->
